@@ -68,6 +68,9 @@ type Sym struct {
 	Explicit bool   `json:"x,omitempty"`
 	HasPath  bool   `json:"p,omitempty"`
 	Close    bool   `json:"c,omitempty"`
+	// Via: "include" = the directive is written in a file of its own that is INCLUDEd at this place (transparent for the
+	// automaton: INCLUDE does not change where a directive attaches)
+	Via string `json:"via,omitempty"`
 }
 
 // Ctx is one open context; Node is the index of the directive that opened it (for tree reconstruction).
